@@ -13,3 +13,24 @@ Example C03_contig_example : contig (Node 7 [Meta 0 1; Node 3 [Tok 1]; Tok 2; To
 Proof.
   apply (c_node 7 _ 1 3); [reflexivity|]. repeat constructor. apply (c_node 3 _ 1 1); [reflexivity|repeat constructor].
 Qed.
+
+(* ---- indentation balance, statically, for whole dialect grammars (the "programs" quantifier) *)
+From SF Require Import Model.IndentFlow Proofs.IndentFlowP.
+
+(* If the certificate check accepts a grammar environment, a table and a valuation of the indentation-config keys, then EVERY complete
+   derivation from the root -- any input, any nesting, any number of repetitions -- has net indent 0.  The generated files
+   Gen_indent_<dialect>.v instantiate it: `indent_balanced_<d>` is `check ... = true` for all 64 valuations of the six config keys,
+   kernel-checked on every run from the grammar objects of /repo (bundled_dialects_indent_balanced conjoins the dialects for which
+   it holds). *)
+Theorem C03_indent_certificate_sound : forall env t val root z,
+  check env t val root = true -> der env val (GRef root) z -> z = 0%Z.
+Proof. exact check_sound. Qed.
+Print Assumptions C03_indent_certificate_sound.
+
+Example C03_indent_example :
+  check [(0%N, GSeq [GMeta 1; GStar [GRef 1%N]; GMeta (-1)]); (1%N, GAlt [GLeaf; GSeq [GCond [(0%N, true)] 1; GLeaf; GCond [(0%N, true)] (-1)]])]
+        [] (val_of [0%N]) 0%N = true.
+Proof. reflexivity. Qed.
+Example C03_indent_example_unbalanced_rejected :
+  check [(0%N, GSeq [GMeta 1; GStar [GRef 1%N]]); (1%N, GLeaf)] [(0%N, [1%Z])] (val_of []) 0%N = false.
+Proof. reflexivity. Qed.
